@@ -20,6 +20,7 @@ type walker struct {
 	regions *[]Region
 	seen    map[uintptr]bool
 	budget  int
+	ptrs    bool // also record pointer targets as regions
 }
 
 // Dump prints the whole object graph reachable from v (exported and unexported fields, through pointers,
@@ -29,6 +30,15 @@ func Dump(v any) string {
 	w := &walker{sb: &sb, seen: map[uintptr]bool{}, budget: 4 << 20}
 	w.visit(reflect.ValueOf(v), "")
 	return sb.String()
+}
+
+// Objects lists, besides the backing arrays of all slices, the target of every pointer reachable from v (below the
+// top-level value itself): memory that two independently built values must not have in common if either can be edited.
+func Objects(v any) []Region {
+	var rs []Region
+	w := &walker{regions: &rs, seen: map[uintptr]bool{}, budget: 4 << 20, ptrs: true}
+	w.visit(reflect.ValueOf(v), "")
+	return rs
 }
 
 // Regions lists the backing arrays of all slices reachable from v.
@@ -84,6 +94,9 @@ func (w *walker) visit(v reflect.Value, path string) {
 			return
 		}
 		w.seen[p] = true
+		if w.ptrs && w.regions != nil && path != "" && v.Elem().Type().Size() > 0 {
+			*w.regions = append(*w.regions, Region{Ptr: p, Size: v.Elem().Type().Size(), Path: path + "(*)"})
+		}
 		w.put("&")
 		w.visit(v.Elem(), path)
 	case reflect.Interface:
